@@ -1,5 +1,6 @@
 SPECIFICATION Spec
 CONSTANTS MaxLen = 5
+EmitMod = 1
 Emit = TRUE
 Vocab <- VocabQuick
 INVARIANTS TypeOK DesignRefinesInfoset EmitCase
